@@ -62,6 +62,24 @@ func RunC02(c *core.Ctx) {
 				}
 			}
 		}
+		// the same tunnel faults arriving without Content-Length at a handler whose size limit is switched off
+		for _, tf := range tun {
+			for _, m := range []int{66, 68, 70} {
+				h := seqSteps([]int{60, 62, 64, 66, 68, 68, 70}, 0)
+				for i := range h {
+					if h[i].Msg == m {
+						h[i].Fault = tf
+						h = append(h[:i+1], hstep{Msg: m, Sess: 0, Tok: 's', From: -1})
+						break
+					}
+				}
+				doHist(c, cf, h, "tunnel-fault-chunked-request", core.Params{"chunked": "1"})
+			}
+			for _, pre := range [][]int{{60}, {60, 62}} {
+				h := append(seqSteps(pre, 0), hstep{Msg: 66, Sess: 0, Tok: 's', From: -1, Fault: tf}, hstep{Msg: 68, Sess: 0, Tok: 's', From: -1, Fault: tf})
+				doHist(c, cf, h, "tunnel-message-without-proof-chunked", core.Params{"chunked": "1"})
+			}
+		}
 		// the token store fails to invalidate the session of a refused ProveDevice (or the attacker's 66 races it): the
 		// keys the attacker derived from his own parameter must not have become the session's keys
 		for _, f := range []string{"signer", "sig-flip", "other-device", "alg-512", "sig-short", "nonce", "ueid", "null-payload"} {
@@ -148,6 +166,12 @@ func RunC06(c *core.Ctx) {
 		for _, start := range []int{10, 30, 60} {
 			emit([]hstep{{Msg: start, Sess: 0, Tok: 's', From: -1}, {Msg: 20, Sess: 1, Tok: 's', From: -1}, {Msg: 22, Sess: 0, Tok: 's', From: 1}}, "ownersign-in-foreign-session")
 		}
+		// owner keys that travel as certificate chains [leaf, CA]: the key of the chain is its LEAF's
+		for _, f := range append([]string{""}, raw.Faults(22)...) {
+			h := seqSteps(honestSeq["TO0"], 0)
+			h[1].Fault = f
+			doHist(c, cf, h, "x5chain-owner-key", core.Params{"enc": "x5chain"})
+		}
 		// a voucher that has moved on to a second owner: every fault again, in particular a blob signed by the FORMER owner
 		for _, f := range append([]string{""}, raw.Faults(22)...) {
 			h := seqSteps(honestSeq["TO0"], 0)
@@ -172,6 +196,57 @@ func RunC06(c *core.Ctx) {
 			doHist(c, cf, genRandomOf(c, "TO0", 3+c.Rng.Intn(8)), "random-to0", nil)
 		}
 		doProofs(c, cf, 22, 4*n)
+		if !c.Quick() || spec.Name == env.P256.Name {
+			reRegistrationExpiryProbe(c, spec)
+		}
+	}
+}
+
+// reRegistrationExpiryProbe: a second registration for the same GUID replaces the first one's lifetime as well as its
+// blob: a refresh outlives the registration it refreshes, and a shorter registration ends an earlier longer one.
+func reRegistrationExpiryProbe(c *core.Ctx, spec env.KeySpec) {
+	e, err := srvEnv(spec)
+	if err != nil {
+		return
+	}
+	ctx, cancel := context.WithTimeout(context.Background(), time.Minute)
+	defer cancel()
+	addr := []protocol.RvTO2Addr{{DNSAddress: strp("owner.test"), Port: 8043, TransportProtocol: protocol.HTTPSTransport}}
+	type plan struct {
+		name        string
+		first, then uint32
+		wantServed  bool
+	}
+	var devs []*env.Device
+	plans := []plan{{"short-then-long", 1, 3600, true}, {"long-then-short", 3600, 1, false}}
+	for _, pl := range plans {
+		dev, err := e.NewDevice(ctx, protocol.X509KeyEnc)
+		if err != nil {
+			c.Note("re-registration expiry probe: %v", err)
+			return
+		}
+		devs = append(devs, dev)
+		for _, ttl := range []uint32{pl.first, pl.then} {
+			t := ttl
+			e.AcceptTTL = func(uint32) (uint32, error) { return t, nil }
+			_, err := e.TO0(ctx, dev.Cred.GUID, addr)
+			e.AcceptTTL = nil
+			if err != nil {
+				c.Fail("re-registration-refused", fmt.Sprintf("%s: %v", pl.name, err), "srv.history", core.Params{"key": spec.Name}, core.Obs{})
+				return
+			}
+		}
+	}
+	time.Sleep(2100 * time.Millisecond)
+	for i, pl := range plans {
+		d := raw.NewDriver(e, devs[i], raw.Config{Kex: env.DefaultKex(spec), Cipher: kex.A128GcmCipher})
+		r := d.Do(raw.Step{Msg: 30, Tok: raw.TokNone, BodyFrom: -1})
+		c.Rep.Evaluations++
+		c.Count("re_registration_expiry", fmt.Sprintf("%s served=%v", pl.name, r.RespType == 31))
+		if (r.RespType == 31) != pl.wantServed {
+			c.Fail("re-registration-keeps-old-expiry:"+pl.name, fmt.Sprintf("registered for %d s, then again for %d s; 2.1 s later HelloRV was answered %d", pl.first, pl.then, r.RespType),
+				"srv.history", core.Params{"key": spec.Name, "plan": pl.name}, core.Obs{})
+		}
 	}
 }
 
